@@ -33,6 +33,7 @@ type c05Case struct {
 	NoLast    string  `json:"no_last"`    // "", QUIT, disconnect: no chunk carries LAST; the transfer is ended this way
 	MarkEmpty bool    `json:"mark_empty"` // the marker after every chunk is an empty line (answered 5xx) instead of NOOP
 	Pad       int     `json:"pad"`        // the chunk sizes are written with this many leading zeros (chunk-size = 1*DIGIT, decimal)
+	EarlyNil  bool    `json:"early_nil"`  // with FailAfter: the backend returns nil (not an error) without having read the chunk
 	FailAfter int     `json:"fail_after"` // > 0: the backend gives the message up after reading this many octets; the rest of the chunk (an LF-free binary run longer than the line limit) arrives in later segments
 	StallAt   int     `json:"stall_at"`   // > 0: ReadTimeout is set and the read deadline is fired after this many payload octets; the peer then carries on
 }
@@ -242,6 +243,7 @@ func c05Run(ctx *core.Ctx) {
 						pay := append([]byte("GIVEUP"), repeatByte(0xEE, n)...)
 						pay = append(pay, "\r\nMAIL FROM:<bait-1@x.test>\r\n"...)
 						emit(c05Case{Msg: pay, MsgQ: fmt.Sprintf("%.40q...", pay), Chunks: []int{len(pay)}, ExtraLast: last, Mode: mode, LineLimit: limit, FailAfter: 4, Pad: nseg})
+						emit(c05Case{Msg: pay, MsgQ: fmt.Sprintf("%.40q...", pay), Chunks: []int{len(pay)}, ExtraLast: last, Mode: mode, LineLimit: limit, FailAfter: 4, Pad: nseg, EarlyNil: true})
 					}
 				}
 			}
@@ -804,7 +806,11 @@ func c05Stall(ctx *core.Ctx, c c05Case) {
 // (binary, no LF for longer than the line limit) is still on its way. The remainder is skipped by
 // octet count: one (negative) reply for the BDAT, then the next command is executed in place.
 func c05FailedChunk(ctx *core.Ctx, c c05Case) {
-	ctx.Eval(fmt.Sprintf("failedchunk|%d|%v|%s|%d|%d", len(c.Msg), c.ExtraLast, c.Mode, c.LineLimit, c.Pad), true)
+	if gaveUp("c05failedchunk") {
+		ctx.Add("cases_skipped_after_an_established_hang", 1)
+		return
+	}
+	ctx.Eval(fmt.Sprintf("failedchunk|%d|%v|%s|%d|%d|%v", len(c.Msg), c.ExtraLast, c.Mode, c.LineLimit, c.Pad, c.EarlyNil), true)
 	rig := newRig(c.Mode, func(s *smtp.Server) {
 		if c.LineLimit > 0 {
 			s.MaxLineLength = c.LineLimit
@@ -812,6 +818,9 @@ func c05FailedChunk(ctx *core.Ctx, c c05Case) {
 	})
 	rig.BE.H.Data = func(sess int, r *rec.Reader, st smtp.StatusCollector) error {
 		r.ReadN(c.FailAfter, c.FailAfter)
+		if c.EarlyNil {
+			return nil // a backend that does not care for the rest of the message
+		}
 		return &smtp.SMTPError{Code: 554, EnhancedCode: smtp.EnhancedCode{5, 6, 0}, Message: "v#giveup"}
 	}
 	p := rig.Dial()
@@ -845,6 +854,13 @@ func c05FailedChunk(ctx *core.Ctx, c c05Case) {
 	fin := rig.Finish()
 	ends := waitDataEnds(rig.Log)
 	if isWatchdog(rerr) || !fin || !ends {
+		giveUp("c05failedchunk")
+		if lines, blocked := c20Blocked(); isWatchdog(rerr) && blocked && len(lines) > 0 {
+			// the peer has sent everything and waits; no library goroutine is runnable: the BDAT
+			// will never be answered
+			ctx.Violate("C05:no-reply:failed-chunk", fmt.Sprintf("the BDAT command is never answered: the handler is blocked although the whole chunk has been sent [backend returned nil early: %v last=%v mode=%s]", c.EarlyNil, c.ExtraLast, c.Mode), c, append(rig.Log.Strings(40), lines...))
+			return
+		}
 		ctx.Inconclusive("C05 failedchunk watchdog")
 		return
 	}
@@ -860,8 +876,8 @@ func c05FailedChunk(ctx *core.Ctx, c c05Case) {
 			return
 		}
 	}
-	if len(tail) != 3 || tail[0].Class() == 2 || tail[1].Code != 250 || tail[2].Code != 221 {
-		fail("C05:replies:failed-chunk", fmt.Sprintf("expected one negative reply for the BDAT, then 250 (NOOP) and 221 (QUIT); got %s (read ended: %v)", codes(tail), rerr))
+	if len(tail) != 3 || (tail[0].Class() == 2 && !c.EarlyNil) || tail[1].Code != 250 || tail[2].Code != 221 {
+		fail("C05:replies:failed-chunk", fmt.Sprintf("expected one reply for the BDAT (negative unless the backend returned nil), then 250 (NOOP) and 221 (QUIT); got %s (read ended: %v) [backend returned nil early: %v]", codes(tail), rerr, c.EarlyNil))
 		return
 	}
 	if ctx.WantSample("failedchunk") {
